@@ -444,12 +444,23 @@ class ScriptedSet:
         except TypeError:
             return NotImplemented
 
+    def __hash__(self):  # stands in for frozenset too
+        return hash(frozenset(self._d))
+
+    def __le__(self, other):
+        return self.issubset(other)
+
+    def __ge__(self, other):
+        return self.issuperset(other)
+
     def __repr__(self):
         return f"ScriptedSet({list(self._d)!r})"
 
 
 @contextlib.contextmanager
-def set_order_seam(perm_source, modules=("scenic.core.requirements", "scenic.core.dynamics.scenarios", "scenic.core.scenarios")):
+def set_order_seam(perm_source, modules=("scenic.core.requirements", "scenic.core.dynamics.scenarios", "scenic.core.scenarios"), names=("set",)):
+    """Replace the names `set` (and, if asked, `frozenset`) seen by the given modules by
+    ScriptedSet, whose iteration order is decided by perm_source."""
     import importlib
 
     mods = [importlib.import_module(m) for m in modules]
@@ -457,16 +468,17 @@ def set_order_seam(perm_source, modules=("scenic.core.requirements", "scenic.cor
     ScriptedSet._perm_source = staticmethod(perm_source) if perm_source else None
     ScriptedSet.instances = []
     for m in mods:
-        saved.append((m, m.__dict__.get("set", _MISSING)))
-        m.__dict__["set"] = ScriptedSet
+        for nm in names:
+            saved.append((m, nm, m.__dict__.get(nm, _MISSING)))
+            m.__dict__[nm] = ScriptedSet
     try:
         yield
     finally:
-        for m, old in saved:
+        for m, nm, old in saved:
             if old is _MISSING:
-                m.__dict__.pop("set", None)
+                m.__dict__.pop(nm, None)
             else:
-                m.__dict__["set"] = old
+                m.__dict__[nm] = old
         ScriptedSet._perm_source = None
 
 
